@@ -11,7 +11,7 @@ FILES = c05.FILES + ["root/c14_test.go"]
 def run(ctx):
     c05.run(ctx, test="^TestVerifC14$", name="C14", files=FILES)
     import props.C10 as c10
-    c10.run(ctx, test="^TestVerifC14Sockets$", name="C14", files=c10.FILES + ["root/c09_test.go", "root/c14s_test.go"])
+    c10.run(ctx, test="^(TestVerifC14Sockets|TestVerifLostWhilePreparing)$", name="C14", files=c10.FILES + ["root/c09_test.go", "root/c14s_test.go"])
     # the pumps of a session which ends by itself must all end: the structural facts this rests on are re-read from the sources
     import props.C09 as c09
     facts = c09.shape(ctx)
